@@ -64,7 +64,11 @@ def rtf_codepage(cp, form: str = "plain") -> tuple[bytes, dict]:
     tag = f"isortf{'none' if cp is None else cp}{form}"
     esc = "".join("\\'%02x" % b for b in RTF_SHARED_BYTES)
     head = "{\\rtf1\\ansi" + ("" if cp is None else f"\\ansicpg{cp}") + "\\deff0{\\fonttbl{\\f0 Arial;}}"
-    if form == "plain":
+    if form == "hf":
+        # every header / footer destination RTF knows (all pages, left, right, first), each with its own text
+        groups_ = "".join(f"{{\\{d} \\pard {d}{tag} text\\par}}" for d in ("header", "headerl", "headerr", "headerf", "footer", "footerl", "footerr", "footerf"))
+        body = f"{groups_}\\pard {tag} {esc} end{tag}\\par"
+    elif form == "plain":
         body = f"\\pard {tag} {esc} end{tag}\\par"
     elif form == "upper":          # same escapes spelled with upper-case hex digits
         body = f"\\pard {tag} {esc.upper().replace('X', 'x')} end{tag}\\par"
@@ -773,7 +777,7 @@ def archive(variant: str) -> tuple[bytes, dict]:
 # family -> (kind, builder(variant) -> (bytes, truth), extension, variants)
 FAMILIES = {
     "rtf-cp": ("rtf", lambda v: rtf_codepage(*_rtf_variant(v)), ".rtf",
-               [f"{'none' if cp is None else cp}" for cp in RTF_CODEPAGES] + ["1252:upper", "1251:upper", "1250:mixed", "1251:mixed", "none:mixed"]),
+               [f"{'none' if cp is None else cp}" for cp in RTF_CODEPAGES] + ["1252:upper", "1251:upper", "1250:mixed", "1251:mixed", "none:mixed", "1252:hf", "1251:hf", "1250:hf", "none:hf"]),
     "docx": ("docx", docx, ".docx", ["hfA", "hfB", "hfdangling", "hfnone", "hfother", "nometa", "notesA", "notesB", "notesdangling", "imgA", "imgB", "imgdangling", "styA", "styB"]),
     "xlsx": ("xlsx", xlsx, ".xlsx", ["sstA", "sstB", "sstinline", "nometa", "vals-double", "vals-bool", "vals-int", "vals-text", "vals-mixed"]),
     "pptx": ("pptx", pptx, ".pptx", ["imgA", "imgB", "imgdangling", "cmA", "cmB", "cmdangling", "nometa", "plain"]),
